@@ -58,11 +58,17 @@ def table_lines(lines: list[str]) -> set[int]:
     out: set[int] = set()
     for i, l in enumerate(lines):
         if "|" in l and "-" in l and _DELIM_ROW.match(l) and i > 0 and "|" in lines[i - 1]:
-            out.update((i - 1, i))
             j = i + 1
             while j < len(lines) and lines[j].lstrip(" >").startswith("|"):
-                out.add(j)
                 j += 1
+            # only if the parser itself reads these lines as a table (cell counts must agree, …)
+            block = "\n".join(re.sub(r"^[ >]*", "", x) for x in lines[i - 1:j]) + "\n"
+            try:
+                kids = mdast.parse(block).children
+                if kids and type(kids[0]).__name__ == "Table":
+                    out.update(range(i - 1, j))
+            except Exception:
+                pass
     return out
 
 
@@ -234,7 +240,7 @@ def run(ctx: Ctx) -> None:
         ctx.guard("tie layers", c06.tie_layers)
     ast_oracle(ctx, rendertie.SPECIAL_DOCS, "special")
     ast_oracle(ctx, gen_docs(ctx, ctx.scale(500, 8000)), "generated-clean")
-    ast_oracle(ctx, gen_docs(ctx, ctx.scale(120, 2000), hazards=True, clean=False), "generated-hazards")
+    ast_oracle(ctx, gen_docs(ctx, ctx.scale(40, 2000), hazards=True, clean=False), "generated-hazards")
     ctx.assume("Marko's parse of the INPUT is taken as the document the author wrote (the parser itself is third party)")
     ctx.rule("structured generator (blocks × inlines × layouts) × widths {0,12,20,40,88} × both modes; canonical-AST equality; "
              "hazard stream attributed counterfactually to KNOWN_FINDINGS")
